@@ -1,6 +1,6 @@
 //! C02 harness ("concurrent querying is sound, single-flight and terminates").
 //!
-//! modes (`--mode all|engine|trace|tset|f6`, default all):
+//! modes (`--mode all|engine|trace|tset|f6|walk`, default all):
 //!  * `engine` — real parallel runs (tokio multi-thread, 2..16 workers) of generated programs on a fresh
 //!    in-memory engine: round 1 (M tasks, overlapping roots), one input session, round 2; judged by
 //!    independent oracles only (from-scratch values, executor overlap detector, exec-twice, hang, panic).
@@ -10,6 +10,11 @@
 //!    concurrent histories judged by a linearizability oracle for sets.
 //!  * `f6`     — the forced two-thread schedule of finding F6 on the real set (no hooks: the gate sits in
 //!    `S::default()` of the `BuildHasher` parameter, which the upgrade calls inside its critical section).
+//!  * `walk`   — finding F60: "wide fan-in with droppers" (`gen_fandrop`): a firewall (or a projection / normal node
+//!    above it) with 16..=40 callers of which a few drop (or add) their edge after an input edit, all requests of
+//!    the next epoch issued concurrently on a runtime with 0 (= current_thread), 1, 2, 4 workers; the corpus cases
+//!    of `corpus/C02-F60/*.txt` first.  Judged by the from-scratch oracle and the OS-thread watchdog (a hung run
+//!    blocks its worker THREADS in `parking_lot::RwLock::write`, so no tokio timer can report it).
 use std::{
     collections::{BTreeMap, BTreeSet, HashMap, HashSet},
     hash::BuildHasher,
@@ -39,7 +44,12 @@ impl Config for MemCfg {
 }
 
 const WALL_LIMIT: Duration = Duration::from_secs(20);
+/// `--wall-limit-ms N` (measurements only): a shorter watchdog limit
+static WALL_LIMIT_MS: AtomicU64 = AtomicU64::new(0);
+fn wall_limit() -> Duration { match WALL_LIMIT_MS.load(SeqCst) { 0 => WALL_LIMIT, ms => Duration::from_millis(ms) } }
 const SIG_F6: &str = "F6:tiered-set-lost-insert";
+const SIG_F60: &str = "C02:hang-wide-walk";
+const FAM_WALK: &str = "fandrop";
 
 // ------------------------------------------------------------------------------------------
 // bookkeeping
@@ -80,8 +90,8 @@ fn hash_text(s: &str) -> u64 { use std::hash::{Hash, Hasher}; let mut h = std::c
 
 #[derive(Clone, Debug, Default)]
 struct Spec {
-    fam: String, // gen | fw | fanin | wide
-    w: usize,
+    fam: String, // gen | fw | fanin | wide | fandrop
+    w: usize,    // tokio worker threads; 0 = current_thread runtime
     program: Program,
     init: Vec<(u32, i64)>,
     seq: Vec<u32>,
@@ -122,6 +132,7 @@ impl Spec {
         sp
     }
     fn full_oracles(&self) -> bool { self.fam != "fw" }
+    fn hang_sig(&self) -> &'static str { if self.fam == FAM_WALK { SIG_F60 } else { "C02:hang" } }
 }
 
 // ------------------------------------------------------------------------------------------
@@ -208,6 +219,79 @@ fn gen_fanin(r: &mut Rng, max_n: u64) -> Spec {
     for _ in 0..r.below(4) { let j = r.below(m2 as u64) as usize; tasks2[j].push(*r.pick(&callers)); }
     tasks2.retain(|t| !t.is_empty());
     Spec { fam: "fanin".into(), w: pick_w(r, true), program, init: vec![(0, 1)], seq, tasks, edit: vec![(0, 2)], tasks2 }
+}
+
+/// WIDE FAN-IN WITH DROPPERS (finding F60).  Key 0 is a selector input.  Per group: an input `v`, a firewall
+/// `f` over it, and the walked node `c` = `f` itself, a projection over `f`, or a normal node over `f`; then
+/// 16..=40 callers of `c` (two thirds within the small, Vec-backed tier 16..=32): steady callers `c + 1000j`,
+/// DROPPERS `if sel == 1 { c + k } else { yield^m; -1-k }` (stop reading `c` once the selector changes) and a
+/// few ADDERS (start reading `c` then); droppers/adders are requested in the second epoch through FRESH roots
+/// (a query caller does not repair the firewalls below first, so the dropper re-executes and publishes —
+/// `remove_element` on `c`'s backward-edge set — while the steady request's repair of `f` dirty-walks that
+/// set) or directly.  Round 1 queries every caller (sequentially in a shuffled order, or spread over tasks), the
+/// edit flips the selector and changes `v`, round 2 issues one task per steady representative / dropper / adder.
+fn yields(m: u64, e: Expr) -> Expr { let mut e = e; for _ in 0..m { e = Expr::Yield(Box::new(e)); } e }
+fn add(a: Expr, b: Expr) -> Expr { Expr::Add(Box::new(a), Box::new(b)) }
+
+fn gen_fandrop(r: &mut Rng) -> Spec {
+    let groups = r.range(1, 3) as i64;
+    let mut nodes = vec![NodeDef { kind: Kind::Input, default: 0, expr: Expr::Const(0) }];
+    let (mut init, mut edit) = (vec![(0u32, 1i64)], vec![(0u32, 0i64)]);
+    let mut round1: Vec<u32> = vec![];
+    let (mut lead, mut others): (Vec<Vec<u32>>, Vec<Vec<u32>>) = (vec![], vec![]);
+    let mut sweep: Vec<u32> = vec![];
+    for g in 0..groups {
+        let v = nodes.len() as u32; nodes.push(NodeDef { kind: Kind::Input, default: 0, expr: Expr::Const(0) });
+        init.push((v, 10 + g)); if r.chance(9, 10) { edit.push((v, 20 + g)); }
+        let f = nodes.len() as u32;
+        nodes.push(NodeDef { kind: Kind::Firewall, default: DEFAULT_FW, expr: if r.chance(1, 2) { Expr::Read(v) } else { add(Expr::Read(v), Expr::Const(7)) } });
+        let c = match r.below(5) {
+            0 | 1 | 2 => f,
+            3 => { nodes.push(NodeDef { kind: Kind::Projection, default: DEFAULT_PJ, expr: if r.chance(1, 2) { Expr::Read(f) } else { add(Expr::Read(f), Expr::Const(1)) } }); nodes.len() as u32 - 1 }
+            _ => { nodes.push(NodeDef { kind: Kind::Normal, default: DEFAULT_NM, expr: add(Expr::Read(f), Expr::Const(3)) }); nodes.len() as u32 - 1 }
+        };
+        // 32 = the full small tier: the only width at which the Vec-backed walk parks twice (16th and 32nd edge); a
+        // current_thread runtime wakes parked tasks last-in-first-out, so only the second parking meets a dropper
+        let n = match r.below(6) { 0 => 32, 1 | 2 | 3 => r.range(16, 31), _ => r.range(33, 40) };
+        let d = r.range(1, 8).min(n - 1);
+        let a = if r.chance(1, 3) { r.range(1, 2) } else { 0 };
+        let mut group_callers: Vec<u32> = vec![];
+        let mut steadies: Vec<u32> = vec![];
+        for j in 0..(n - d) {
+            steadies.push(nodes.len() as u32);
+            nodes.push(NodeDef { kind: Kind::Normal, default: DEFAULT_NM, expr: add(Expr::Read(c), Expr::Const(1000 * (j as i64 + 1))) });
+        }
+        group_callers.extend(&steadies);
+        let mut movers: Vec<u32> = vec![];
+        for k in 0..(d + a) {
+            let m = match r.below(20) { 0..=8 => 0, 9..=13 => 1, _ => r.range(2, 4) };
+            let reads = add(Expr::Read(c), Expr::Const(k as i64));
+            let quits = yields(m, Expr::Const(-1 - k as i64));
+            let (on1, off1) = if k < d { (reads, quits) } else { (quits, yields(m, add(Expr::Read(c), Expr::Const(50 + k as i64)))) };
+            movers.push(nodes.len() as u32);
+            nodes.push(NodeDef { kind: Kind::Normal, default: DEFAULT_NM, expr: Expr::IfEq(Box::new(Expr::Read(0)), 1, Box::new(on1), Box::new(off1)) });
+        }
+        group_callers.extend(&movers);
+        round1.extend(&group_callers); sweep.extend(&group_callers);
+        // second epoch: the steady representative(s) and one request per mover
+        lead.push(vec![steadies[0]]);
+        for _ in 0..r.below(3) { others.push(vec![*r.pick(&steadies)]); }
+        for mv in movers {
+            if r.chance(4, 5) { let root = nodes.len() as u32; nodes.push(NodeDef { kind: Kind::Normal, default: DEFAULT_NM, expr: Expr::Read(mv) }); others.push(vec![root]); }
+            else { others.push(vec![mv]); }
+        }
+    }
+    r.shuffle(&mut round1);
+    let (seq, tasks) = if r.chance(2, 3) { (round1, vec![]) } else {
+        let m = r.range(2, 8) as usize; let mut ts = vec![vec![]; m];
+        for (i, k) in round1.iter().enumerate() { ts[i % m].push(*k); }
+        (vec![], ts)
+    };
+    // order of the spawns: the steady requests first (they reach the walk while the movers are still queued), or anywhere
+    let mut tasks2 = if r.chance(1, 2) { r.shuffle(&mut others); lead.extend(others); lead } else { lead.extend(others); r.shuffle(&mut lead); lead };
+    if r.chance(1, 2) { r.shuffle(&mut sweep); tasks2.push(sweep); }
+    let w = *r.pick(&[0usize, 0, 1, 1, 2, 2, 2, 4, 4, 3, 8]);
+    Spec { fam: FAM_WALK.into(), w, program: Program { nodes }, init, seq, tasks, edit, tasks2 }
 }
 
 /// WIDE: layered program, each node reads 1-3 lower nodes, unordered groups with many keys, aggregator roots.
@@ -312,7 +396,9 @@ async fn do_round(engine: &Arc<Engine<MemCfg>>, sh: &Arc<Shared>, seq: &[u32], t
 }
 
 fn run_spec_inner(spec: &Spec, sink: Option<Arc<TraceSink>>) -> RunOut {
-    let rt = tokio::runtime::Builder::new_multi_thread().worker_threads(spec.w.max(1)).thread_stack_size(64 << 20).enable_all().build().unwrap();
+    // w = 0: a current_thread runtime (the thread of this function is the only one that polls tasks)
+    let rt = if spec.w == 0 { tokio::runtime::Builder::new_current_thread().enable_all().build().unwrap() }
+        else { tokio::runtime::Builder::new_multi_thread().worker_threads(spec.w).thread_stack_size(64 << 20).enable_all().build().unwrap() };
     let spec2 = spec.clone();
     let r = std::panic::catch_unwind(std::panic::AssertUnwindSafe(|| {
         rt.block_on(async move {
@@ -343,12 +429,15 @@ fn run_spec_inner(spec: &Spec, sink: Option<Arc<TraceSink>>) -> RunOut {
     match r { Ok(ro) => ro, Err(p) => RunOut { panic: Some(panic_msg(p)), ..Default::default() } }
 }
 
+/// The watchdog: the run happens on its own OS thread (which builds the runtime and blocks on it); this thread
+/// waits on a std channel with a wall-clock limit.  On a timeout the runner thread and its runtime are ABANDONED
+/// (never joined): threads blocked in a lock stay blocked and cost nothing, the process ends with `main`.
 fn run_spec(spec: &Spec, sink: Option<Arc<TraceSink>>) -> Result<RunOut, RunErr> {
     let (tx, rx) = std::sync::mpsc::channel();
     let spec2 = spec.clone();
     let s2 = sink.clone();
     let _ = std::thread::Builder::new().stack_size(64 << 20).spawn(move || { let r = run_spec_inner(&spec2, s2); let _ = tx.send(r); });
-    let r = rx.recv_timeout(WALL_LIMIT);
+    let r = rx.recv_timeout(wall_limit());
     if sink.is_some() { verif::set_sink(None); }
     r.map_err(|_| RunErr::Hang)
 }
@@ -420,7 +509,7 @@ fn judge_run(spec: &Spec, ro: &RunOut) -> Verdict {
         let mut seen: BTreeSet<u32> = BTreeSet::new(); let mut shared = false;
         for t in &spec.tasks { let ks: BTreeSet<u32> = static_closure(p, t).into_iter().filter(|k| p.kind(*k) != Kind::Input).collect(); for k in ks { if !seen.insert(k) { shared = true; } } }
         let changed = spec.tasks.iter().flatten().chain(spec.seq.iter()).any(|k| s1.value(*k).unwrap() != s2.value(*k).unwrap());
-        nontrivial = shared && changed && spec.tasks.len() >= 2;
+        nontrivial = if spec.fam == FAM_WALK { changed && max_fanin >= 16 && spec.tasks2.len() >= 2 } else { shared && changed && spec.tasks.len() >= 2 };
     } else if !spec.full_oracles() {
         let mut seen: BTreeSet<u32> = BTreeSet::new(); let mut shared = false;
         for t in &spec.tasks { let ks: BTreeSet<u32> = static_closure(p, t).into_iter().filter(|k| p.kind(*k) != Kind::Input).collect(); for k in ks { if !seen.insert(k) { shared = true; } } }
@@ -440,7 +529,11 @@ fn eval_spec(ctx: &mut Ctx, spec: &Spec, sink: Option<Arc<TraceSink>>, tag: &str
     ctx.max("max_tasks_per_round", spec.tasks.len().max(spec.tasks2.len()) as u64);
     let text = spec.render();
     match run_spec(spec, sink) {
-        Err(RunErr::Hang) => { ctx.fail("C02:hang", format!("the run did not finish within {} s of wall time (fam {}, {} workers)", WALL_LIMIT.as_secs(), spec.fam, spec.w), &text); None }
+        Err(RunErr::Hang) => {
+            ctx.inc(&format!("{tag}_hangs_workers_{:02}", spec.w), 1);
+            let what = if spec.fam == FAM_WALK { " — a request of the epoch after the edit never completed: the walk over a wide backward-edge set was parked holding the set's read guards while a caller that drops/adds its edge blocked its worker thread in write() (finding F60)" } else { "" };
+            ctx.fail(spec.hang_sig(), format!("the run did not finish within {} ms of wall time (fam {}, {} workers{}){what}", wall_limit().as_millis(), spec.fam, spec.w, if spec.w == 0 { " = current_thread runtime" } else { "" }), &text); None
+        }
         Ok(ro) => {
             let v = judge_run(spec, &ro);
             ctx.inc("executor_invocations", v.execs);
@@ -476,6 +569,36 @@ fn mode_engine(ctx: &mut Ctx, r: &mut Rng, n: u64, thorough: bool) {
         if ctx.counters.get("sig_hits:C02:hang").copied().unwrap_or(0) >= 3 { ctx.inc("engine_mode_stopped_after_3_hangs", 1); break; }
     }
     ctx.inc("wall_ms_engine", t0.elapsed().as_millis() as u64);
+}
+
+// ------------------------------------------------------------------------------------------
+// mode walk: wide fan-in with droppers (finding F60)
+// ------------------------------------------------------------------------------------------
+
+/// corpus first (every `conc` case of corpus/C02-F60, at its own worker count and at 0/1/2/4), then `n` generated
+/// specs.  A hang costs the full wall limit and leaves blocked threads behind: by default the mode stops at the
+/// first one (`--walk-keep-going`: measurements of the hang rate).
+fn mode_walk(ctx: &mut Ctx, r: &mut Rng, n: u64, reps: u64, keep_going: bool) {
+    let t0 = Instant::now();
+    let hung = |ctx: &Ctx| ctx.counters.get(&format!("sig_hits:{SIG_F60}")).copied().unwrap_or(0);
+    let mut specs: Vec<(Spec, &str)> = vec![];
+    if let Ok(rd) = std::fs::read_dir(format!("{}/../corpus/C02-F60", env!("CARGO_MANIFEST_DIR"))) {
+        let mut fs: Vec<_> = rd.filter_map(|e| e.ok()).map(|e| e.path()).filter(|p| p.extension().map_or(false, |x| x == "txt")).collect();
+        fs.sort();
+        for f in fs {
+            let text = std::fs::read_to_string(&f).unwrap_or_default();
+            if !text.trim_start().starts_with("conc") { continue; }
+            let sp = Spec::parse(&text);
+            ctx.inc("walk_corpus_files", 1);
+            for _ in 0..reps { specs.push((sp.clone(), "walkcorpus")); for w in [0usize, 1, 2, 4] { if w != sp.w { let mut s2 = sp.clone(); s2.w = w; specs.push((s2, "walkcorpus")); } } }
+        }
+    }
+    for _ in 0..n { specs.push((gen_fandrop(r), "walk")); }
+    for (spec, tag) in &specs {
+        eval_spec(ctx, spec, None, tag);
+        if hung(ctx) > 0 && !keep_going { ctx.inc("walk_mode_stopped_after_hang", 1); break; }
+    }
+    ctx.inc("wall_ms_walk", t0.elapsed().as_millis() as u64);
 }
 
 // ------------------------------------------------------------------------------------------
@@ -920,6 +1043,10 @@ fn main() {
     let n_trace = flag("--n-trace").and_then(|x| x.parse().ok()).unwrap_or((n / 2).max(1));
     let n_seq = flag("--n-seq").and_then(|x| x.parse().ok()).unwrap_or((n / 2).max(1));
     let n_hist = flag("--n-hist").and_then(|x| x.parse().ok()).unwrap_or(n * 8);
+    let n_walk = flag("--n-walk").and_then(|x| x.parse().ok()).unwrap_or(if thorough { 1500 } else { 120 });
+    let walk_reps = if thorough { 15 } else { 3 };
+    let keep_going = a.rest.iter().any(|x| x == "--walk-keep-going");
+    if let Some(ms) = flag("--wall-limit-ms").and_then(|x| x.parse().ok()) { WALL_LIMIT_MS.store(ms, SeqCst); }
     if let Some(rp) = &a.replay {
         let text = std::fs::read_to_string(rp).unwrap();
         replay(&mut ctx, &mut out, &text);
@@ -929,8 +1056,11 @@ fn main() {
             "tset" => mode_tset(&mut ctx, &mut out, &mut rng, n_seq, n_hist),
             "trace" => mode_trace(&mut ctx, &mut out, &mut rng, n_trace, no_fw),
             "engine" => mode_engine(&mut ctx, &mut rng, n_engine, thorough),
+            "walk" => mode_walk(&mut ctx, &mut rng, n_walk, walk_reps, keep_going),
             _ => {
                 mode_f6(&mut ctx, &mut out);
+                // own generator state: the other modes' cases do not depend on how many walk cases are run
+                mode_walk(&mut ctx, &mut Rng::new(a.seed ^ 0xF60), n_walk, walk_reps, keep_going);
                 mode_tset(&mut ctx, &mut out, &mut rng, n_seq, n_hist);
                 mode_trace(&mut ctx, &mut out, &mut rng, n_trace, no_fw);
                 mode_engine(&mut ctx, &mut rng, n_engine, thorough);
@@ -943,7 +1073,7 @@ fn main() {
     for (k, v) in &ctx.maxes { dist.push(format!("{}:{v}", jstr(k))); }
     dist.push(format!("\"mode\":{}", jstr(&mode)));
     dist.push(format!("\"tset_variant\":{}", jstr(match ctx.variant_fixed { Some(true) => "fixed", Some(false) => "asis", None => "n/a" })));
-    let rule = "engine/trace runs: program families gen (gen_program, normal+input nodes), fw (with firewalls/projections; overlap/hang/panic verdicts only), fanin (1 input, optional chain, 1..200 callers of one callee, biased 28..40 around the 32-element tier threshold; sequential prefix then concurrent rest), wide (layered, up to 600/3000 keys, unordered groups up to 40 keys, aggregator roots) x 2..16 tokio workers x round 1 (M tasks with overlapping roots) / one input edit / round 2 (all keys); non-trivial = at least 2 round-1 tasks request a common non-input key (as a root or through the dependencies of their roots) and the edit changes the from-scratch value of some round-1 root; tset sequences: non-trivial = crosses the threshold; tset histories: non-trivial = at least 2 threads and the history starts within 28..33 elements, ends at >= 28 or crosses the threshold; distinct by hash of the case text";
+    let rule = "engine/trace runs: program families gen (gen_program, normal+input nodes), fw (with firewalls/projections; overlap/hang/panic verdicts only), fanin (1 input, optional chain, 1..200 callers of one callee, biased 28..40 around the 32-element tier threshold; sequential prefix then concurrent rest), wide (layered, up to 600/3000 keys, unordered groups up to 40 keys, aggregator roots), fandrop (mode walk, finding F60: 1-3 groups of a firewall — or a projection / normal node over it — with 16..40 callers of which 1-8 drop and 0-2 add their edge after the edit, requested through fresh roots or directly, one task each, on 0 = current_thread / 1 / 2 / 3 / 4 / 8 workers; corpus/C02-F60 first; non-trivial = fan-in >= 16, the edit changes a caller's value, >= 2 tasks in the second epoch) x 2..16 tokio workers x round 1 (M tasks with overlapping roots) / one input edit / round 2 (all keys); non-trivial = at least 2 round-1 tasks request a common non-input key (as a root or through the dependencies of their roots) and the edit changes the from-scratch value of some round-1 root; tset sequences: non-trivial = crosses the threshold; tset histories: non-trivial = at least 2 threads and the history starts within 28..33 elements, ends at >= 28 or crosses the threshold; distinct by hash of the case text";
     let mut rep = String::from("{");
     rep.push_str(&format!("\"evaluations\":{},\"distinct_nontrivial\":{},", ctx.evals, ctx.distinct.len()));
     rep.push_str(&format!("\"rule\":{},", jstr(rule)));
